@@ -121,7 +121,7 @@ def typed_ids(spec, o, e, out, *, dumped: bool):  # noqa: C901, PLR0912
 # --------------------------------------------------------------------------------- strategies
 @st.composite
 def st_case(draw):
-    what = draw(st.sampled_from(["load", "load", "dump", "dump", "extras", "convert"]))
+    what = draw(st.sampled_from(["load", "load", "dump", "dump", "extras", "convert", "convert"]))
     if what == "extras":
         return {"what": "extras", "how": draw(st.sampled_from(["field", "kwargs", "saturator", "two_fields"])),
                 "nested": draw(st.booleans()), "debug": draw(st.integers(0, 2)),
@@ -314,6 +314,11 @@ def twin_spec(ms, wrap, dst_kind, counter):
             ft = ["model", twin_spec(ft[1], wrap, dst_kind, counter)]
         elif ft[0] == "list" and ft[1][0] == "model":
             ft = ["list", ["model", twin_spec(ft[1][1], wrap, dst_kind, counter)], ft[2] if len(ft) > 2 else "typing"]
+        elif wrap[counter[0] % len(wrap)] and ft[0] in ("list", "set", "frozenset", "deque", "vtuple") and \
+                tspec.strip(ft[1])[0] not in ("optional", "none", "any", "object", "union", "model") and \
+                "none" not in tspec.shapes(ft[1], True) and not tspec.contains(ft, "ref"):
+            # same container kind, other element type: converted element-wise ("builtin iterable"), container must be new
+            ft = [ft[0], ["optional", ft[1], "optional"], *ft[2:]]
         elif wrap[counter[0] % len(wrap)] and ft[0] not in ("optional", "none", "any", "object", "union") and \
                 "none" not in tspec.shapes(ft, True) and not tspec.contains(ft, "ref"):
             ft = ["optional", ft, "optional"]
@@ -360,7 +365,7 @@ def check_convert(ctx: runner.Ctx, case):
         ctx.violation("mutable_container_shared", ("convert", "result_object"), case, f"{head}: result object not fresh")
     # element-wise converted positions (types differ): containers must be new
     for fs, fd in zip(t[1]["fields"], dst_spec[1]["fields"]):
-        if fs["t"] != fd["t"] and fd["t"][0] in ("list", "model"):
+        if fs["t"] != fd["t"] and fd["t"][0] in ("list", "model", "set", "deque"):
             def get(o, n, ms):
                 return o[n] if ms["kind"] == "typeddict" else getattr(o, n)
             a, b, s = get(r1, fd["n"], dst_spec[1]), get(r2, fd["n"], dst_spec[1]), get(src, fs["n"], t[1])
